@@ -477,26 +477,25 @@ impl JModel {
             Mem::Not(_) | Mem::BNot(_) | Mem::MaybeRd(_) | Mem::MaybeWr(_) => return None,
         })
     }
-    fn admits(&self, m: &Mem, i: u32) -> bool {
-        match m {
-            Mem::Not(n) => !self.comps[n].contains_key(&i),
-            Mem::BNot(b) => !self.bits[b].contains(&i),
-            Mem::MaybeRd(_) | Mem::MaybeWr(_) => true,
-            other => self.set_of(other).unwrap().contains(&i),
-        }
-    }
     pub fn expected_indices(&self, mems: &[Mem]) -> Vec<u32> {
-        let mut base: Option<BTreeSet<u32>> = None;
-        for m in mems {
-            if let Some(s) = self.set_of(m) {
-                base = Some(match base {
-                    None => s,
-                    Some(b) => b.intersection(&s).cloned().collect(),
-                });
-            }
-        }
-        let base = base.expect("every shape has a finite member");
-        base.into_iter().filter(|i| mems.iter().all(|m| self.admits(m, *i))).collect()
+        let sets: Vec<Option<BTreeSet<u32>>> = mems.iter().map(|m| self.set_of(m)).collect();
+        // start from the smallest finite member
+        let base = sets
+            .iter()
+            .filter_map(|s| s.as_ref())
+            .min_by_key(|s| s.len())
+            .expect("every shape has a finite member")
+            .clone();
+        base.into_iter()
+            .filter(|i| {
+                mems.iter().zip(sets.iter()).all(|(m, s)| match (m, s) {
+                    (_, Some(s)) => s.contains(i),
+                    (Mem::Not(n), None) => !self.comps[n].contains_key(i),
+                    (Mem::BNot(b), None) => !self.bits[b].contains(i),
+                    _ => true,
+                })
+            })
+            .collect()
     }
 
     /// Compare one yielded item with the model for index `i`, and apply the writes / moves it made.
@@ -947,5 +946,339 @@ pub fn run(rep: &mut Report) {
             break;
         }
         crate::report::guarded(rep, case, |rep| run_case(rep, case, &defs));
+    }
+}
+
+// ===========================================================================
+// Engine `parjoin` (C07): the same members joined in parallel on rayon pools of
+// many sizes; every (index, components) item must be delivered exactly once.
+// ===========================================================================
+pub mod par {
+    use super::*;
+    use specs::rayon;
+    use specs::rayon::iter::ParallelIterator;
+    use specs::ParJoin;
+    use std::sync::Mutex;
+
+    fn tid() -> usize {
+        rayon::current_thread_index().unwrap_or(usize::MAX)
+    }
+
+    /// Seeded per-item delay so that work stealing (and therefore splitting)
+    /// happens at different places in different runs. Never time based.
+    fn delay(item: &[Slot], seed: u64) {
+        let mut h = seed;
+        for s in item {
+            if let Slot::Ent(e) = s {
+                h = crate::rng::mix(h ^ e.id() as u64);
+            }
+            if let Slot::Idx(i) = s {
+                h = crate::rng::mix(h ^ *i as u64);
+            }
+        }
+        match h % 32 {
+            0 => std::thread::yield_now(),
+            1..=2 => {
+                let mut x = h;
+                for _ in 0..(h % 97) {
+                    x = crate::rng::mix(x);
+                }
+                std::hint::black_box(x);
+            }
+            _ => {}
+        }
+    }
+
+    macro_rules! pshape {
+        ($name:ident; $( $v:ident : $kind:ident $( ( $($arg:tt),* ) )? ),+ ) => {
+            #[allow(unused_mut, unused_variables)]
+            fn $name(w: &World, aux: &mut Aux, variant: u8, seed: u64) -> Vec<(usize, Vec<Slot>)> {
+                $( bind!($kind, $v, w $(, $($arg),*)? ); )+
+                match variant {
+                    0 => ( $( mexpr!($kind, $v, aux $(, $($arg),*)?), )+ )
+                        .par_join()
+                        .map(|t| {
+                            let s = t.norm_all();
+                            delay(&s, seed);
+                            (tid(), s)
+                        })
+                        .collect(),
+                    1 => {
+                        let out = Mutex::new(Vec::new());
+                        ( $( mexpr!($kind, $v, aux $(, $($arg),*)?), )+ ).par_join().for_each(|t| {
+                            let s = t.norm_all();
+                            delay(&s, seed);
+                            out.lock().unwrap().push((tid(), s));
+                        });
+                        out.into_inner().unwrap()
+                    }
+                    _ => ( $( mexpr!($kind, $v, aux $(, $($arg),*)?), )+ )
+                        .par_join()
+                        .fold(Vec::new, |mut acc, t| {
+                            let s = t.norm_all();
+                            delay(&s, seed);
+                            acc.push((tid(), s));
+                            acc
+                        })
+                        .reduce(Vec::new, |mut a, mut b| {
+                            a.append(&mut b);
+                            a
+                        }),
+                }
+            }
+        };
+    }
+
+    type PFn = fn(&World, &mut Aux, u8, u64) -> Vec<(usize, Vec<Slot>)>;
+    pub struct PDef {
+        pub name: &'static str,
+        pub f: PFn,
+        pub mems: Vec<Mem>,
+    }
+    macro_rules! pdefs {
+        ( $( $name:ident; $( $v:ident : $kind:ident $( ( $($arg:tt),* ) )? ),+ ; )+ ) => {
+            $( pshape!($name; $( $v : $kind $( ( $($arg),* ) )? ),+ ); )+
+            pub fn pshapes() -> Vec<PDef> {
+                vec![ $( PDef { name: stringify!($name), f: $name, mems: vec![ $( mdesc!($kind $(, $($arg),*)?) ),+ ] } ),+ ]
+            }
+        };
+    }
+
+    pdefs! {
+        p_ent; e: ent;
+        p_ent_wr_rd; e: ent, a: wr(CVec), b: rd(CDense);
+        p_wr_maybe; e: ent, a: wr(CDense), m: mrd(CHash);
+        p_anti; e: ent, n: not(CVec), a: rd(CDefault);
+        p_bits_wr; x: bits(b0), a: wr(CHash);
+        p_two_wr; e: ent, a: wr(CBTree), b: wr(CDefault), c: rd(CNull);
+        p_null_wr; e: ent, a: wr(CNull);
+        p_rwr; e: ent, r: rwr(CVec2);
+        p_rrd; r: rrd(CDense2), e: ent;
+        p_flag_rd; e: ent, a: rd(CFlagVec), b: rd(CDerefDense);
+        p_bor; x: bor(b1, b2), e: ent, a: rd(CVec);
+        p_mwr; e: ent, m: mwr(CDense), a: rd(CVec);
+        p_abits; x: abits(a0), e: ent;
+        p_bnot; e: ent, x: bnot(b1), a: wr(CVec2);
+        p8; e: ent, a: wr(CVec), b: rd(CDense), c: wr(CDefault), d: rd(CHash), f: wr(CBTree), g: mrd(CNull), h: rd(CFlagDense);
+        p12; e: ent, a: rd(CVec), b: rd(CDense), c: rd(CDefault), d: rd(CHash), f: rd(CBTree), g: mrd(CNull), h: rd(CFlagVec), i: rd(CFlagDense), j: wr(CVec2), k: wr(CDense2), l: not(CFlagNull);
+    }
+
+    const POOL_SIZES: [usize; 7] = [1, 2, 3, 4, 8, 16, 64];
+
+    fn run_case(rep: &mut Report, case: u64, defs: &[PDef], pools: &[rayon::ThreadPool]) {
+        let cfg = rep.cfg.clone();
+        let mut rng = derive(cfg.seed, &[hash_str("parjoin"), case]);
+        ledger::reset();
+        trace::set_ctx("C07");
+        let mut hist: Vec<String> = Vec::new();
+        let mut world = World::new();
+        let drivers: BTreeMap<&'static str, Box<dyn Driver>> = STORAGES.iter().map(|n| (*n, driver(n))).collect();
+        for (k, d) in drivers.values().enumerate() {
+            d.register(&mut world, (k % 6) as u8);
+        }
+        let small = cfg.extra_u64("small", 0) == 1;
+        let n = if small {
+            rng.range(1, 200)
+        } else {
+            match rng.weighted(&[25, 40, 25, 10]) {
+                0 => rng.range(1, 64),
+                1 => rng.range(65, 600),
+                2 => 4300,
+                _ => 9000,
+            }
+        };
+        let all: Vec<Entity> = world.create_iter().take(n).collect();
+        let style = rng.below(3);
+        let mut keep: BTreeSet<u32> = BTreeSet::new();
+        for e in &all {
+            let i = e.id();
+            let k = match style {
+                0 => true,
+                1 => rng.chance(1, 3) || BOUNDARY.contains(&i),
+                _ => rng.chance(1, 20) || BOUNDARY.contains(&i),
+            };
+            if k {
+                keep.insert(i);
+            }
+        }
+        let kill: Vec<Entity> = all.iter().filter(|e| !keep.contains(&e.id())).cloned().collect();
+        world.delete_entities(&kill).expect("setup");
+        let mut live: BTreeMap<u32, Entity> = all.iter().filter(|e| keep.contains(&e.id())).map(|e| (e.id(), *e)).collect();
+        for _ in 0..rng.below(3) {
+            let e = world.entities().create();
+            live.insert(e.id(), e);
+        }
+        let universe: Vec<u32> = live.keys().cloned().collect();
+        let mut model = JModel { live, dead: Vec::new(), comps: BTreeMap::new(), bits: BTreeMap::new(), cs: BTreeMap::new() };
+        let mut payload = 0x100u64;
+        let core: BTreeSet<u32> = {
+            let mut c = random_subset(&mut rng, &universe);
+            if rng.chance(1, 2) {
+                c.extend(universe.iter().cloned().filter(|_| rng.chance(1, 2)));
+            }
+            c
+        };
+        for name in STORAGES.iter() {
+            let mut members = random_subset(&mut rng, &universe);
+            if !matches!(*name, "CFlagNull") && rng.chance(4, 5) {
+                members.extend(core.iter().cloned());
+            }
+            let mut m = BTreeMap::new();
+            for i in members {
+                payload += 1;
+                if let Out::InsOk(None, s) = drivers[name].access(&world, model.live[&i], Path::Insert, payload) {
+                    m.insert(i, s);
+                }
+            }
+            model.comps.insert(name, m);
+        }
+        let mut aux = Aux::default();
+        for (name, set) in [("b0", &mut aux.b0), ("b1", &mut aux.b1), ("b2", &mut aux.b2)] {
+            let mut s = random_subset(&mut rng, &universe);
+            if name != "b1" {
+                s.extend(core.iter().cloned());
+            }
+            for i in &s {
+                set.add(*i);
+            }
+            model.bits.insert(name, s);
+        }
+        {
+            let mut s = random_subset(&mut rng, &universe);
+            s.extend(core.iter().cloned());
+            for i in &s {
+                aux.a0.add(*i);
+            }
+            model.bits.insert("a0", s);
+        }
+        for name in ["cs0", "cs1", "cs2"] {
+            model.cs.insert(name, BTreeMap::new());
+        }
+        hist.push(format!("setup: {} created, {} kept, core {}", n, model.live.len(), core.len()));
+        trace::push(&hist[0]);
+        let rounds = rng.range(2, cfg.ops.max(3));
+        let mut failure: Option<(Fail, usize)> = None;
+        let mut nontrivial = false;
+        let mut sig = Sig::default();
+        let mut partition_sigs: BTreeSet<u64> = BTreeSet::new();
+        for step in 1..=rounds {
+            let d = &defs[rng.below(defs.len())];
+            let pi = rng.below(pools.len());
+            let variant = rng.below(3) as u8;
+            let exp = model.expected_indices(&d.mems);
+            let line = format!("{}(pool {}, variant {}) expecting {} items", d.name, POOL_SIZES[pi], variant, exp.len());
+            trace::push(&line);
+            hist.push(line);
+            rep.op(d.name);
+            let seed = rng.next();
+            let mut got = pools[pi].install(|| (d.f)(&world, &mut aux, variant, seed));
+            let r: R = (|| {
+                // every item must reveal its index (all shapes contain an entity or bit-set member)
+                let mut keyed: Vec<(u32, usize, Vec<Slot>)> = Vec::new();
+                for (t, it) in got.drain(..) {
+                    match index_of(&d.mems, &it) {
+                        Some(i) => keyed.push((i, t, it)),
+                        None => return Err(("C07", format!("{}: item without index witness {:?}", d.name, it))),
+                    }
+                }
+                keyed.sort_by_key(|k| k.0);
+                let mut counts: BTreeMap<u32, u32> = BTreeMap::new();
+                for k in &keyed {
+                    *counts.entry(k.0).or_insert(0) += 1;
+                }
+                if let Some((i, c)) = counts.iter().find(|(_, c)| **c != 1) {
+                    return Err(("C07", format!("{} on a pool of {} threads: index {} was delivered {} times", d.name, POOL_SIZES[pi], i, c)));
+                }
+                let gi: Vec<u32> = keyed.iter().map(|k| k.0).collect();
+                if gi != exp {
+                    let gs: BTreeSet<u32> = gi.iter().cloned().collect();
+                    let es: BTreeSet<u32> = exp.iter().cloned().collect();
+                    return Err((
+                        "C07",
+                        format!(
+                            "{} on a pool of {} threads delivered {} items, the sequential join has {}: missing {:?}, extra {:?}",
+                            d.name,
+                            POOL_SIZES[pi],
+                            gi.len(),
+                            exp.len(),
+                            es.difference(&gs).take(8).collect::<Vec<_>>(),
+                            gs.difference(&es).take(8).collect::<Vec<_>>()
+                        ),
+                    ));
+                }
+                let mut threads: BTreeSet<usize> = BTreeSet::new();
+                let mut psig = Sig::default();
+                for (i, t, it) in &keyed {
+                    model.check_item(d.name, &d.mems, *i, it).map_err(|(_, m)| ("C07", m))?;
+                    threads.insert(*t);
+                    psig.push(*i as u64 * 131 + *t as u64);
+                }
+                partition_sigs.insert(psig.0);
+                rep.max("max_threads_delivering_in_one_join", threads.len() as u64);
+                if threads.len() >= 2 {
+                    rep.bump("joins_delivered_by_2plus_threads", 1);
+                    if exp.len() >= 2 && exp[0] / 4096 != exp[exp.len() - 1] / 4096 {
+                        nontrivial = true;
+                    }
+                }
+                rep.bump("par_items_checked", keyed.len() as u64);
+                if let Some(m) = ledger::take_faults().into_iter().next() {
+                    return Err(("C08", m));
+                }
+                // all mutations performed by the workers are visible now
+                for name in STORAGES.iter() {
+                    let got = drivers[name].dump(&world);
+                    let want: Vec<(u32, Snap)> = model.comps[name].iter().map(|(i, s)| (*i, *s)).collect();
+                    if got != want {
+                        let d0 = got.iter().zip(want.iter()).find(|(a, b)| a != b);
+                        return Err(("C07", format!("after {} on {} threads: storage {} differs from what the workers wrote: first difference {:?}", d.name, POOL_SIZES[pi], name, d0)));
+                    }
+                }
+                Ok(())
+            })();
+            sig.push(hash_str(d.name));
+            sig.push(pi as u64);
+            if let Err(f) = r {
+                failure = Some((f, step));
+                break;
+            }
+        }
+        drop(aux);
+        drop(world);
+        rep.cases_run += 1;
+        rep.bump("distinct_partition_signatures_in_case", partition_sigs.len() as u64);
+        rep.bump("entities", model.live.len() as u64);
+        if nontrivial && failure.is_none() {
+            let mut s = sig;
+            for p in &partition_sigs {
+                s.push(*p);
+            }
+            rep.distinct(s.0);
+        }
+        if nontrivial && rep.samples.len() < 2 {
+            rep.sample(serde_json::json!({"case": case, "steps": hist.iter().take(10).collect::<Vec<_>>()}));
+        }
+        if let Some(((p, msg), step)) = failure {
+            let s = format!("{}:{}", p, msg.split(':').next().unwrap_or(""));
+            rep.violation(p, case, step, msg, s, &hist);
+        }
+        let _ = ledger::take_faults();
+    }
+
+    pub fn run(rep: &mut Report) {
+        let defs = pshapes();
+        let max_pool = rep.cfg.extra_u64("max_pool", 64) as usize;
+        let pools: Vec<rayon::ThreadPool> = POOL_SIZES
+            .iter()
+            .filter(|n| **n <= max_pool)
+            .map(|n| rayon::ThreadPoolBuilder::new().num_threads(*n).build().expect("pool"))
+            .collect();
+        rep.bump("par_shapes", defs.len() as u64);
+        for case in rep.cfg.my_cases() {
+            if rep.full() {
+                break;
+            }
+            crate::report::guarded(rep, case, |rep| run_case(rep, case, &defs, &pools));
+        }
     }
 }
